@@ -268,6 +268,15 @@ func runC19(c *run.Ctx) {
 			p1.NPods += extra
 			r.Ev("owner_label_mismatch_after_several_equal_replicas", 1)
 		}
+		if ge := c.R("extraowners"); ge.P(0.35) {
+			// further, non-controller ownerReferences around the controller's (before it, after it) on one or both pods: the pods still
+			// belong to one owner
+			p2.ExtraOwners = rng.Pick(ge, []string{"before-false", "after-false", "before-omitted", "both-false"})
+			if p1.Kind == world.KOwnedPods && ge.P(0.4) {
+				p1.ExtraOwners = rng.Pick(ge, []string{"before-false", "after-false", "before-omitted"})
+			}
+			r.Ev("owner_label_mismatch_with_extra_owner_references", 1)
+		}
 		d1 := (&world.World{Workloads: []world.Workload{p1}}).Docs()
 		d2 := (&world.World{Workloads: []world.Workload{p2}}).Docs()[0]
 		d2.YAML = strings.Replace(d2.YAML, "conflict-owner-x0", "conflict-owner-x9", 1)
